@@ -52,6 +52,10 @@ pub enum PeerOp {
     SackHeld { adv: u16, skip: u8, count: u8, wnd: u32 },
     /// like Data, but acknowledging everything seen from the socket (its FIN included)
     DataAck { dseq: i16, len: u16 },
+    /// like DataAck for the next in-order packet, announcing a new receive window on the same packet (bidirectional
+    /// traffic: acknowledgement, window update and payload — possibly larger than the socket's own segment
+    /// size — arrive together)
+    DataAckWnd { len: u16, wnd: u32 },
     /// a Crafted packet whose encoding is then damaged: bytes overwritten, first-extension byte forced,
     /// junk appended, truncated
     Mangled { base: Box<PeerOp>, flips: Vec<(u16, u8)>, first_ext: Option<u8>, append: Vec<u8>, trunc: Option<u16> },
@@ -583,6 +587,32 @@ pub fn run(case: &SpCase, trace: bool) -> SpResult {
                         if *dseq == 0 {
                             peer.next_seq = peer.next_seq.wrapping_add(1);
                         }
+                        peer.send(p);
+                    }
+                    PeerOp::DataAckWnd { len, wnd } => {
+                        let seq = peer.next_seq;
+                        if peer.fin_seqs.iter().any(|f| dist(seq, *f) >= 0) {
+                            res.skipped_data_ops += 1;
+                            settle().await;
+                            continue;
+                        }
+                        // never more than fits the link or the socket's advertised window
+                        let len = (*len).max(1).min(case.sock.max_payload().min(u16::MAX as usize) as u16).min(peer.sock_wnd.min(u16::MAX as u32) as u16);
+                        if len == 0 {
+                            res.skipped_data_ops += 1;
+                            settle().await;
+                            continue;
+                        }
+                        let len = *peer.lens.entry(seq).or_insert(len);
+                        res.peer_data_sent.push((net.log_len(), seq));
+                        let mut p = peer.base(refparse::ST_DATA);
+                        p.seq = seq;
+                        p.ack = peer.ack_base(expected_sock_first);
+                        p.wnd = *wnd;
+                        peer.last_ack = p.ack;
+                        peer.last_wnd = *wnd;
+                        p.payload = peer_payload(peer.key, seq, len as usize);
+                        peer.next_seq = peer.next_seq.wrapping_add(1);
                         peer.send(p);
                     }
                     PeerOp::Ack { back, wnd, sack } => {
